@@ -62,6 +62,7 @@ class FortranBackend(BaseBackend):
     n2 = 72
     linebreak_start = "     & "
     linebreak_end = "&"
+    _used_module_names = set()      # names of the extension modules compiled by this process
 
     def __init__(self,
                  ops: Optional[Dict[str, str]] = None,
@@ -138,6 +139,17 @@ class FortranBackend(BaseBackend):
 
     def generate_func_head(self, func_name: str, state_var: str = 'y', return_var: str = 'dy', func_args: list = None,
                            add_hist_func: Optional[bool] = None):
+
+        # A compiled extension module cannot be loaded a second time under the same name within one process (also not after
+        # `clear()` removed it from `sys.modules` and deleted its file): the import after compilation would silently return the
+        # module of the EARLIER compilation. Every compilation therefore gets a module / file name that this process has not
+        # used before.
+        if self._fname in FortranBackend._used_module_names:
+            base, i = self._fname, 1
+            while f"{base}_{i}" in FortranBackend._used_module_names:
+                i += 1
+            self._fname = f"{base}_{i}"
+        FortranBackend._used_module_names.add(self._fname)
 
         # resolve default from the backend-level flag (see BaseBackend docstring)
         if add_hist_func is None:
